@@ -570,7 +570,7 @@ func init() {
 			"floats plain/exponent incl. many digits and overflow; double-quoted strings over ASCII/multi-byte text with the escapes \\n \\t \\\\ \\\", Go-style and undefined escapes; " +
 			"names from [a-zA-Z_][a-zA-Z0-9_]*[!?]? minus reserved words, incl. every reserved word as proper prefix) evaluated on the real parser+evaluator; " +
 			"fixed boundary and reserved-prefix tables are exhaustive in both tiers. non-trivial = judged by the oracle; distinct = distinct (kind, form, magnitude class or name) tuples" +
-			" Added: accepted byte/rune escapes must denote exactly the host decoding; names as listed keys, in list chains, as symbol functions.",
+			" Added: accepted byte/rune escapes must denote exactly the host decoding; names as listed keys, in list chains, as symbol functions. Sixth round: strings, floats, ints and names of 3000–70000 bytes in the fixed table.",
 		Assumptions: []string{
 			"math/big parse of the cleaned spelling is the integer reference; strconv.ParseFloat (correctly rounded) is the float reference",
 			"documented escapes are \\n \\t \\\\ \\\" (docs/reference/string.md shows \\n, \\\\ and \\\"; \\t is the conventional fourth)",
